@@ -9,17 +9,30 @@
    local  : LocalStorageBackend over a directory tree (files + directories; makedirs on write, os.walk,
             os.path.exists true for directories, os.remove refusing directories).
 
+   Open k prog : open_seekable(k) and a seek/read program (Model/Range.v) on the reader it returns -- one
+            operation of the history, so that it interleaves with writes, overwrites and deletes of the same key
+            on the same backend.  spec / local: a plain file holding the key's CURRENT content.  s3: a HEAD for
+            the size (the path and the key are open_seekable's own wiring, REGENERATED as Gen/GenRange.v
+            gen_open_size_path / gen_open_key), then S3RangeFile with that size whose every read is a ranged GET
+            against the bucket.
+   Stream k : open_file(k).read().
+   ReadTag k : read_file_with_etag(k), contents only (the local backend's tag is None).
+   WriteCas k v : the compare-and-swap writer used as a writer: on S3 read_file_with_etag(k) for the current tag
+            (absent: create-if-absent) and then write_file_cas(k, v, tag); a backend without CAS (local) writes
+            plainly.  In a sequential history the precondition holds, so the contract is that of Write.  The
+            model's entity tag of an object is its content (fakes3: md5 of the content).
+
    Keys of the contract are lists of path segments; the backends receive the "/"-joined string, as the
    library does.  Listing order is an artefact of the representation (insertion order); the harness
    compares listings as sorted lists.  Definitions only. *)
 From Coq Require Import List Bool Ascii String Arith ZArith.
-Require Import DS.Model.Str DS.Gen.GenS3.
+Require Import DS.Model.Str DS.Gen.GenS3 DS.Gen.GenRange DS.Model.Range.
 Import ListNotations.
 
 Definition bytes := list ascii.
 Definition key := list str.
 
-Inductive errk := NotFound | IsDir | NotDir | ClientErr.
+Inductive errk := NotFound | IsDir | NotDir | ClientErr | Conflict.
 
 Inductive op (K : Type) :=
 | Write (k : K) (v : bytes)
@@ -28,9 +41,13 @@ Inductive op (K : Type) :=
 | ListDir (d : K)
 | Delete (k : K)
 | Size (k : K)
-| Mtime (k : K).
+| Mtime (k : K)
+| Open (k : K) (prog : list rop)
+| Stream (k : K)
+| WriteCas (k : K) (v : bytes)
+| ReadTag (k : K).
 Arguments Write {K}. Arguments Read {K}. Arguments Exists {K}. Arguments ListDir {K}.
-Arguments Delete {K}. Arguments Size {K}. Arguments Mtime {K}.
+Arguments Delete {K}. Arguments Size {K}. Arguments Mtime {K}. Arguments Open {K}. Arguments Stream {K}. Arguments WriteCas {K}. Arguments ReadTag {K}.
 
 Inductive obs :=
 | OUnit                     (* returned None / a timestamp we do not compare *)
@@ -39,12 +56,15 @@ Inductive obs :=
 | OList (l : list str)
 | OSize (n : Z)
 | OSizeDir                  (* local get_size on a directory: a file-system dependent number *)
+| OOpened (os : list (@robs ascii)) (final : Z)   (* what the program observed on the reader, and where it ended *)
 | OErr (e : errk).
 
 Definition map_op {K K'} (f : K -> K') (o : op K) : op K' :=
   match o with
   | Write k v => Write (f k) v | Read k => Read (f k) | Exists k => Exists (f k) | ListDir d => ListDir (f d)
   | Delete k => Delete (f k) | Size k => Size (f k) | Mtime k => Mtime (f k)
+  | Open k prog => Open (f k) prog | Stream k => Stream (f k)
+  | WriteCas k v => WriteCas (f k) v | ReadTag k => ReadTag (f k)
   end.
 
 Fixpoint run {S E : Type} (step : S -> E -> S * obs) (s : S) (es : list E) : S * list obs :=
@@ -103,14 +123,15 @@ Definition wf_key (k : key) : Prop := k <> [] /\ Forall wf_seg k.
 Definition wf_op (o : op key) : Prop :=
   match o with
   | ListDir d => Forall wf_seg d          (* the table root [] is a legal directory *)
-  | Write k _ | Read k | Exists k | Delete k | Size k | Mtime k => wf_key k
+  | Write k _ | Read k | Exists k | Delete k | Size k | Mtime k | Stream k | WriteCas k _ | ReadTag k => wf_key k
+  | Open k prog => wf_key k /\ Forall wf_rop prog
   end.
 
 (* the exact keys (file names) an operation names; ListDir names a directory, not a key *)
 Definition op_key (o : op key) : list key :=
   match o with
   | ListDir _ => []
-  | Write k _ | Read k | Exists k | Delete k | Size k | Mtime k => [k]
+  | Write k _ | Read k | Exists k | Delete k | Size k | Mtime k | Open k _ | Stream k | WriteCas k _ | ReadTag k => [k]
   end.
 
 (* no key is a directory of another key: the key families a file system can hold *)
@@ -121,15 +142,20 @@ Definition store := list (key * bytes).
 
 Definition size_of (v : bytes) : Z := Z.of_nat (List.length v).
 
+(* a plain file holding v, driven by a seek/read program *)
+Definition file_obs (v : bytes) (prog : list rop) : obs := let '(os, final) := run_file v 0 prog in OOpened os final.
+
 Definition spec_step (st : store) (o : op key) : store * obs :=
   match o with
-  | Write k v => (upsert key_eqb k v st, OUnit)
-  | Read k => (st, match lookup key_eqb k st with Some v => OBytes v | None => OErr NotFound end)
+  | Write k v | WriteCas k v => (upsert key_eqb k v st, OUnit)
+  | Read k | ReadTag k => (st, match lookup key_eqb k st with Some v => OBytes v | None => OErr NotFound end)
   | Exists k => (st, OBool (has key_eqb k st))
   | ListDir d => (st, OList (map join (filter (under d) (map fst st))))
   | Delete k => (remove key_eqb k st, OUnit)
   | Size k => (st, match lookup key_eqb k st with Some v => OSize (size_of v) | None => OErr NotFound end)
   | Mtime k => (st, match lookup key_eqb k st with Some _ => OUnit | None => OErr NotFound end)
+  | Open k prog => (st, match lookup key_eqb k st with Some v => file_obs v prog | None => OErr NotFound end)
+  | Stream k => (st, match lookup key_eqb k st with Some v => OBytes v | None => OErr NotFound end)
   end.
 
 (* ---------------------------------------------------------------- S3 *)
@@ -145,7 +171,34 @@ Definition s3_head_object (b : bucket) (k : str) : s3res bytes :=
   match lookup str_eqb k b with Some v => S3Ok v | None => S3Fail (lit "404") end.
 Definition s3_put_object (b : bucket) (k : str) (v : bytes) : bucket := upsert str_eqb k v b.
 Definition s3_delete_object (b : bucket) (k : str) : bucket := remove str_eqb k b.
+(* conditional PUT: If-Match <tag> (Some) / If-None-Match * (None); the tag of an object is its content *)
+Definition tag_matches (cur want : option bytes) : bool :=
+  match cur, want with
+  | None, None => true
+  | Some x, Some y => str_eqb x y
+  | _, _ => false
+  end.
+Definition s3_put_if (b : bucket) (k : str) (tag : option bytes) (v : bytes) : option bucket :=
+  if tag_matches (lookup str_eqb k b) tag then Some (upsert str_eqb k v b) else None.
 Definition s3_list_objects (b : bucket) (p : str) : list str := filter (fun k => starts_with k p) (map fst b).
+
+(* GetObject with Range: bytes=first-last on the bucket as it is NOW *)
+Definition s3_get_range (b : bucket) (k : str) (first last : Z) : option bytes :=
+  match s3_get_object b k with S3Ok v => server_range v first last | S3Fail _ => None end.
+
+(* S3StorageBackend.get_size: one HEAD *)
+Definition s3_get_size (pfx : str) (b : bucket) (p : str) : Z + errk :=
+  match s3_head_object b (gen_get_s3_key pfx p) with
+  | S3Ok v => inl (size_of v)
+  | S3Fail c => inr (if str_eqb c gen_code_size_notfound then NotFound else ClientErr)
+  end.
+
+(* S3StorageBackend.open_seekable + a program on the reader: observations and the ranged GETs issued *)
+Definition s3_open (pfx : str) (b : bucket) (p : str) (prog : list rop) : obs * list (Z * Z) :=
+  match s3_get_size pfx b (gen_open_size_path p) with
+  | inl size => let '(os, final, rs) := run_rf_on size (s3_get_range b (gen_open_key pfx p)) 0 prog in (OOpened os final, rs)
+  | inr e => (OErr e, [])
+  end.
 
 (* S3StorageBackend with self.prefix = pfx *)
 Definition s3_step (pfx : str) (b : bucket) (o : op str) : bucket * obs :=
@@ -167,15 +220,30 @@ Definition s3_step (pfx : str) (b : bucket) (o : op str) : bucket * obs :=
         end)
   | ListDir p => (b, OList (map (gen_strip_prefix pfx) (s3_list_objects b (gen_list_prefix pfx p))))
   | Delete p => (s3_delete_object b (gen_get_s3_key pfx p), OUnit)
-  | Size p =>
-    (b, match s3_head_object b (gen_get_s3_key pfx p) with
-        | S3Ok v => OSize (size_of v)
-        | S3Fail c => if str_eqb c gen_code_size_notfound then OErr NotFound else OErr ClientErr
-        end)
+  | Size p => (b, match s3_get_size pfx b p with inl n => OSize n | inr e => OErr e end)
   | Mtime p =>
     (b, match s3_head_object b (gen_get_s3_key pfx p) with
         | S3Ok _ => OUnit
         | S3Fail c => if str_eqb c gen_code_mtime_notfound then OErr NotFound else OErr ClientErr
+        end)
+  | Open p prog => (b, fst (s3_open pfx b p prog))
+  | Stream p =>
+    (b, match s3_get_object b (gen_get_s3_key pfx p) with
+        | S3Ok v => OBytes v
+        | S3Fail c => if str_eqb c gen_code_open_notfound then OErr NotFound else OErr ClientErr
+        end)
+  | WriteCas p v =>
+    let k := gen_get_s3_key pfx p in
+    (* read_file_with_etag: the current tag, or none for a missing object; then the conditional PUT *)
+    let tag := match s3_get_object b k with S3Ok cur => Some cur | S3Fail _ => None end in
+    match s3_put_if b k tag v with
+    | Some b' => (b', OUnit)
+    | None => (b, OErr Conflict)
+    end
+  | ReadTag p =>
+    (b, match s3_get_object b (gen_get_s3_key pfx p) with
+        | S3Ok v => OBytes v
+        | S3Fail c => if str_eqb c gen_code_readtag_notfound then OErr NotFound else OErr ClientErr
         end)
   end.
 
@@ -200,14 +268,16 @@ Fixpoint add_dirs (ps : list key) (dirs : list key) : list key :=
 Definition missing (s : lstate) (k : key) : obs :=
   if is_dir s k then OErr IsDir else if below_file s k then OErr NotDir else OErr NotFound.
 
+Definition local_write (s : lstate) (k : key) (v : bytes) : lstate * obs :=
+  if below_file s k then (s, OErr NotDir)                                (* makedirs runs into a file *)
+  else let s' := {| lfiles := lfiles s; ldirs := add_dirs (proper_prefixes k) (ldirs s) |} in
+       if is_dir s' k then (s', OErr IsDir)                               (* os.replace onto a directory *)
+       else ({| lfiles := upsert key_eqb k v (lfiles s); ldirs := ldirs s' |}, OUnit).
+
 Definition local_step (s : lstate) (o : op key) : lstate * obs :=
   match o with
-  | Write k v =>
-    if below_file s k then (s, OErr NotDir)                                (* makedirs runs into a file *)
-    else let s' := {| lfiles := lfiles s; ldirs := add_dirs (proper_prefixes k) (ldirs s) |} in
-         if is_dir s' k then (s', OErr IsDir)                               (* os.replace onto a directory *)
-         else ({| lfiles := upsert key_eqb k v (lfiles s); ldirs := ldirs s' |}, OUnit)
-  | Read k => (s, match lookup key_eqb k (lfiles s) with Some v => OBytes v | None => missing s k end)
+  | Write k v | WriteCas k v => local_write s k v
+  | Read k | ReadTag k => (s, match lookup key_eqb k (lfiles s) with Some v => OBytes v | None => missing s k end)
   | Exists k => (s, OBool (is_file s k || is_dir s k))
   | ListDir d => (s, OList (if is_dir s d then map join (filter (under d) (map fst (lfiles s))) else []))
   | Delete k =>
@@ -224,6 +294,8 @@ Definition local_step (s : lstate) (o : op key) : lstate * obs :=
         | Some _ => OUnit
         | None => if is_dir s k then OUnit else missing s k
         end)
+  | Open k prog => (s, match lookup key_eqb k (lfiles s) with Some v => file_obs v prog | None => missing s k end)
+  | Stream k => (s, match lookup key_eqb k (lfiles s) with Some v => OBytes v | None => missing s k end)
   end.
 
 (* the backends as the library calls them: with "/"-joined strings *)
@@ -241,7 +313,8 @@ Definition wf_keyb (k : key) : bool := match k with [] => false | _ => forallb w
 Definition wf_opb (o : op key) : bool :=
   match o with
   | ListDir d => forallb wf_segb d
-  | Write k _ | Read k | Exists k | Delete k | Size k | Mtime k => wf_keyb k
+  | Write k _ | Read k | Exists k | Delete k | Size k | Mtime k | Stream k | WriteCas k _ | ReadTag k => wf_keyb k
+  | Open k prog => wf_keyb k && forallb wf_ropb prog
   end.
 Definition prefix_freeb (ks : list key) : bool := forallb (fun a => forallb (fun b => negb (under a b)) ks) ks.
 Definition foreign_okb (pfx : str) (F : bucket) : bool :=
